@@ -25,7 +25,8 @@
 // shortest sufficient LRU prefix leaves, counters give back exactly its weight), `remove_expired_ao`, `remove_expired_wo`
 // (exactly the maximal expired prefix of the list leaves, up to the batch size; only expired entries are removed) and their
 // glue `evict_expired`. The branches that skip updated / invalidated entries (`try_skip_updated_entry`, the dirty re-queue)
-// are proved UNREACHABLE in that state and are otherwise assumed (no postcondition).
+// are proved UNREACHABLE in that state; `try_skip_updated_entry` itself is under contract (what it does to the two lists as a
+// function of what the map holds under the key).
 // Declared rewrites used here (tools/extract.py): wildcard closure parameters `|_, v|` are named (`wild`); in
 // `evict_lru_entries` the loop `for _ in 0..batch_size` is written as a `while` loop with an explicit counter because Verus
 // does not support `continue` in `for` loops (`for2while`); the `&mut`-capturing closure of `evict_expired` is inlined.
@@ -41,6 +42,8 @@ use super::code::{KeyDate, KeyHashDate};
 pub type KeyId = int;
 pub uninterp spec fn kid<Q: ?Sized>(q: &Q) -> KeyId;
 pub open spec fn kid_arc<K>(k: Arc<K>) -> KeyId { kid::<K>(&*k) }
+pub broadcast axiom fn axiom_kid_arc<K>(k: Arc<K>)
+    ensures #[trigger] kid::<Arc<K>>(&k) == kid::<K>(&*k);
 
 pub struct N { pub id: int, pub key: KeyId, pub hash: u64 }
 
@@ -198,8 +201,8 @@ pub struct CacheStore<K, V, S> { k: std::marker::PhantomData<(K, V, S)> }
 impl<K, V, S> CacheStore<K, V, S> {
     pub uninterp spec fn view(&self) -> Map<KeyId, TrioArc<super::code::ValueEntry<K, V>>>;
     #[verifier::external_body]
-    pub fn get(&self, key: &Arc<K>) -> (r: Option<CacheEntryRef<'_, K, V>>)
-        ensures match r { Some(e) => self@.contains_key(kid_arc(*key)) && e@ == self@[kid_arc(*key)], None => !self@.contains_key(kid_arc(*key)) }
+    pub fn get<Q: ?Sized>(&self, key: &Q) -> (r: Option<CacheEntryRef<'_, K, V>>)
+        ensures match r { Some(e) => self@.contains_key(kid(key)) && e@ == self@[kid(key)], None => !self@.contains_key(kid(key)) }
     { unimplemented!() }
     /// dashmap `remove_if`: the entry under `key` is removed iff the predicate holds for it
     #[verifier::external_body]
@@ -374,6 +377,12 @@ impl<T> Deque<T> {
 //@@ END
 }
 impl<K> Deque<KeyHashDate<K>> {
+//@@ SIG file=src/common/deque.rs owner=Deque name=move_front_to_back
+    #[verifier::external_body]
+    pub fn move_front_to_back(&mut self)
+        ensures final(self)@ == (if old(self)@.len() > 0 { moved_to_back(old(self)@, 0) } else { old(self)@ }), final(self).sp_region() == old(self).sp_region()
+    { unimplemented!() }
+//@@ END
 //@@ SIG file=src/common/deque.rs owner=Deque name=peek_front types=loose
     #[verifier::external_body]
     pub fn peek_front(&self) -> (r: Option<&DeqNode<KeyHashDate<K>>>)
@@ -478,7 +487,7 @@ use std::time::Duration;
 use vstd::std_specs::iter::IteratorSpec;
 use super::env::*;
 use super::cspec::*;
-broadcast use {axiom_node_ref, axiom_ptr_reads};
+broadcast use {axiom_node_ref, axiom_ptr_reads, axiom_kid_arc};
 
 //@@ STRUCT file=src/common/concurrent.rs name=KeyHash
 #[verifier::reject_recursive_types(K)]
@@ -1826,18 +1835,50 @@ impl<K, V, S> Inner<K, V, S> {
     }
 //@@ END
 
-    /// skipping a node whose entry was updated or invalidated in the meantime: never happens in the quiescent state; ASSUMED
-    /// (no postcondition: whatever it does to the two lists is unknown here)
-//@@ SIG file=src/sync/base_cache.rs owner=Inner name=try_skip_updated_entry
-    #[verifier::external_body]
+    /// skipping a node whose entry was updated or invalidated in the meantime (never happens in the quiescent state): what it
+    /// does to the two lists, as a function of what the map holds under the key when the call reads it
+//@@ FN file=src/sync/base_cache.rs owner=Inner name=try_skip_updated_entry tags=C12,C11
     fn try_skip_updated_entry(
         &self,
         key: &K,
         deq_name: &str,
         deq: &mut Deque<KeyHashDate<K>>,
         write_order_deq: &mut Deque<KeyDate<K>>,
-    ) -> (r: bool)
-    { unimplemented!() }
+    ) -> /*@+*/(r:/*@-*/ bool/*@+*/)/*@-*/
+        requires // otherwise: `panic!("move_to_back_ao_in_deque - node is not a member of {} deque")` //@
+            self.cache@.contains_key(kid(key)) && self.cache@[kid(key)]@.dirty() && self.cache@[kid(key)]@.ao_tag().is_some() //@
+                ==> old(deq).sp_region() as usize == self.cache@[kid(key)]@.ao_tag().unwrap(), //@ [C08,C11]
+        ensures //@
+            final(deq).sp_region() == old(deq).sp_region(), //@
+            // the key is gone from the map: the node is kept (a queued record may still point to it) and goes to the back
+            !self.cache@.contains_key(kid(key)) ==> r && final(write_order_deq)@ == old(write_order_deq)@ //@ [C11,C12]
+                && final(deq)@ == (if old(deq)@.len() > 0 { moved_to_back(old(deq)@, 0) } else { old(deq)@ }), //@
+            // the entry has an update in flight: both of its nodes go to the back
+            self.cache@.contains_key(kid(key)) && self.cache@[kid(key)]@.dirty() ==> r //@ [C12,C05]
+                && final(deq)@ == Deques::<K>::to_back(old(deq)@, self.cache@[kid(key)]@.ao()) //@
+                && final(write_order_deq)@ == Deques::<K>::to_back(old(write_order_deq)@, self.cache@[kid(key)]@.wo()), //@
+            // anything else is unexpected: nothing moves, the caller stops
+            self.cache@.contains_key(kid(key)) && !self.cache@[kid(key)]@.dirty() ==> !r && final(deq)@ == old(deq)@ && final(write_order_deq)@ == old(write_order_deq)@, //@ [C12]
+    {
+        if let Some(entry) = self.cache.get(key) {
+            if entry.is_dirty() {
+                // The key exists and the entry has been updated.
+                Deques::move_to_back_ao_in_deque(deq_name, deq, &entry);
+                Deques::move_to_back_wo_in_deque(write_order_deq, &entry);
+                true
+            } else {
+                // The key exists but something unexpected.
+                false
+            }
+        } else {
+            // Skip this entry as the key might have been invalidated. Since the
+            // invalidated ValueEntry (which should be still in the write op
+            // queue) has a pointer to this node, move the node to the back of
+            // the deque instead of popping (dropping) it.
+            deq.move_front_to_back();
+            true
+        }
+    }
 //@@ END
 
 //@@ FN file=src/sync/base_cache.rs owner=Inner name=evict_lru_entries tags=C12,C04,C10 rewrites=wild,for2while
